@@ -561,6 +561,58 @@ def probe_view_defaults():
     return {'rows': rows, 'rejected': rejected}
 
 
+def probe_entrypoints():
+    """which handle of a found view the lookup entry points on and off the router's path call: 1 = the view itself
+    (permission check included), 101 = its `__call_permissive__` handle.  render_view_to_response with secure left at its
+    default / True / False; the wrapper lookup made by `owrapped_view`'s wrapper."""
+    from zope.interface import Interface
+    from pyramid.registry import Registry
+    from pyramid.request import Request
+    from pyramid.response import Response
+    from pyramid.interfaces import IRequest, ISecuredView, IViewClassifier
+    from pyramid.view import render_view_to_response
+    from pyramid.config.views import ViewDeriverInfo
+    import pyramid.viewderivers as vd
+    events = []
+    reg = Registry()
+
+    def view(context, request):
+        events.append(1)
+        return Response('w')
+
+    def permissive(context, request):
+        events.append(101)
+        return Response('w')
+    view.__call_permissive__ = permissive
+    reg.registerAdapter(view, (IViewClassifier, IRequest, Interface), ISecuredView, 'w')
+    out = []
+
+    def fresh():
+        r = Request.blank('/')
+        r.registry = reg
+        return r
+    for label, kw in (('render:default', {}), ('render:True', {'secure': True}), ('render:False', {'secure': False})):
+        del events[:]
+        try:
+            render_view_to_response(object(), fresh(), 'w', **kw)
+            out.append([label, list(events)])
+        except Exception:
+            out.append([label, [9]])
+    del events[:]
+    try:
+        def inner(context, request):
+            events.append(50)
+            return Response('inner')
+        info = ViewDeriverInfo(view=inner, registry=reg, package=None, predicates=[], exception_only=False,
+                               options={'wrapper': 'w', 'name': 'v'})
+        wrapped = vd.owrapped_view(inner, info)
+        wrapped(object(), fresh())
+        out.append(['owrapped', list(events)])
+    except Exception:
+        out.append(['owrapped', [9]])
+    return out
+
+
 def probe_secure_defaults():
     """the default of the `secure` parameter of every view-lookup entry point (inspect.signature of the live objects)"""
     import inspect
@@ -584,7 +636,7 @@ def main():
     except Exception:
         pass
     for key, fn in (('secured', probe_secured), ('call_view', probe_call_view), ('multiview', probe_multiview),
-                    ('tween', probe_tween), ('phases', probe_phases), ('secure_defaults', probe_secure_defaults), ('view_defaults', probe_view_defaults), ('directives', probe_directives), ('chain', probe_chain)):
+                    ('tween', probe_tween), ('phases', probe_phases), ('secure_defaults', probe_secure_defaults), ('view_defaults', probe_view_defaults), ('entrypoints', probe_entrypoints), ('directives', probe_directives), ('chain', probe_chain)):
         if not res['own_tree']:
             res[key] = None
             continue
